@@ -256,6 +256,7 @@ pub fn alphabet(scheme: Scheme, init_seq: u64, own_pub: &[u8], other_pub: &[u8])
     a.push(ri(&[], vec![(k("big"), vec![0x77; 150])]));
     a.push(Op::SetPublicKey(PkArg::OfSigner));
     a.push(Op::SetPublicKey(PkArg::OfNonSigner));
+    a.push(Op::SetPublicKey(PkArg::OtherScheme));
     a
 }
 
